@@ -60,7 +60,7 @@ FoldProgs ==
 \* literals -- the comparison / arithmetic must be done in the common type of the operands' C types
 NegLits == << Un("-", NumN(1)), Un("-", NumN(7)), Un("~", NumN(0)), Un("-", Lit(FromNat(64, 5), "dec", "LL", FALSE)), Un("-", HexN(255, "U")) >>
 MixOperands == NegLits \o << NumN(1), HexN(255, "U"), Lit(Ones(64), "hex", "ULL", FALSE), Lit(FromNat(64, 5), "dec", "LL", FALSE), NumN(0) >>
-Fold2Ops == <<"<", ">", "<=", ">=", "==", "!=", "+", "-", "*", ">>", "&">>
+Fold2Ops == <<"<", ">", "<=", ">=", "==", "!=", "+", "-", "*", ">>", "&", "/">>
 Fold2All ==
     [i \in 1..(Len(NegLits) * Len(MixOperands) * 2 * Len(Fold2Ops)) |->
         LET n == NegLits[((i - 1) % Len(NegLits)) + 1]
